@@ -67,6 +67,8 @@ func faultKind(spec string) string {
 		return "flipped_bit"
 	case "file":
 		return "misdirected_read"
+	case "lit":
+		return "literal_document"
 	}
 	return "wrong_encoding"
 }
